@@ -3,6 +3,7 @@ package main
 import (
 	"bytes"
 	"context"
+	"crypto/sha256"
 	"encoding/binary"
 	"errors"
 	"fmt"
@@ -73,6 +74,11 @@ func NewFixture(ctx context.Context, nWallets, perWallet int, withLocked bool) (
 	enc := keystorev4.New()
 	fx := &Fixture{Store: store}
 	keys := append(append([][]byte{}, daemon.Wallet1Keys...), daemon.Wallet2Keys...)
+	for i := len(keys); i < nWallets*perWallet+1; i++ {
+		h := sha256.Sum256([]byte(fmt.Sprintf("verif key %d", i)))
+		h[0] = 0 // below the group order
+		keys = append(keys, h[:])
+	}
 	type job struct {
 		w    e2wtypes.Wallet
 		name string
@@ -238,9 +244,12 @@ func NewInstance(ctx context.Context, fx *Fixture, o InstanceOpts) (*Instance, e
 	if err := inst.open(ctx); err != nil {
 		return nil, err
 	}
-	verifhook.Set(inst.hook)
+	setHook(inst)
 	return inst, nil
 }
+
+// setHook makes inst the receiver of hook events (one instance at a time drives the hooks).
+func setHook(inst *Instance) { verifhook.Set(inst.hook) }
 
 func (inst *Instance) open(ctx context.Context) error {
 	rulesSvc, err := standardrules.New(ctx,
@@ -525,12 +534,12 @@ func (inst *Instance) ReadStore(ctx context.Context) (*StoreView, error) {
 		switch k[48] {
 		case 0x02:
 			if len(v) != 17 || v[0] != 1 {
-				return nil, fmt.Errorf("unexpected attestation record %x", v)
+				continue // undecodable record (seeded by a fault case): the model is told through a fetch fault
 			}
 			sv.Att[id] = AttRec{int64(binary.LittleEndian.Uint64(v[1:9])), int64(binary.LittleEndian.Uint64(v[9:17]))}
 		case 0x03:
 			if len(v) != 9 || v[0] != 1 {
-				return nil, fmt.Errorf("unexpected proposal record %x", v)
+				continue
 			}
 			sv.Prop[id] = int64(binary.LittleEndian.Uint64(v[1:9]))
 		default:
